@@ -252,6 +252,13 @@ def run(ctx):
                 return recs
         return recs
 
+    def caller_buffer_altered(recs):   # the array behind a WriteBinary argument no longer holds the caller's bytes
+        for r in recs:
+            if r["ev"] == "Op" and r["k"] in ("Malloc", "WriteBinary") and r["n"] > 0:
+                r["ab"] = 3
+                return recs
+        return recs
+
     def spurious_eof(recs):   # a Peek fails although the source never reported an error
         for i, r in enumerate(recs):
             if r["ev"] == "Op" and r["k"] == "Peek" and r["cls"] == "ok" and r["cnt"] > 0 and r["i"] <= 3 and \
@@ -270,6 +277,7 @@ def run(ctx):
                  (unstable_peek, "outstanding peeked slice changed", traces),
                  (short_flush, "peer misses the last byte at Flush", traces[::-1]),
                  (spurious_eof, "Peek fails without a source error", traces),
+                 (caller_buffer_altered, "caller's backing array altered by the writer", traces[::-1]),
                  (unstable_peek, "outstanding peeked slice changed (long sequence)", straces)]
         for mut, name, files in tests:
             f = _pick_case(ctx, files, mut, name)
@@ -300,7 +308,10 @@ def run(ctx):
                 "length 1..%d over sizes {1,4096,4097} crossed with %s environments (fragmentation, end of stream, "
                 "timeout, initial buffer size) and simulates %d sequences of %d operations over sizes {0,1,2,4095,"
                 "4096,4097,8191,8192,8193,512Ki+1}; each case runs on the real standard.Conn / network.NewWriter and "
-                "every recorded event is validated against ByteQueue. evaluations = cases; distinct_nontrivial = cases "
+                "every recorded event is validated against ByteQueue; writer sequences run twice: with a fresh tight buffer per "
+                "WriteBinary/Write and with the arguments being consecutive sub-slices (len < cap) of one caller array "
+                "whose content incl. spare capacity is compared with what the caller wrote after every op (ab = 0). "
+                "evaluations = cases; distinct_nontrivial = cases "
                 "in which an outstanding peeked slice was re-read after a later non-Peek operation or bytes reached "
                 "the peer (measured from the traces); peek_rechecks = Op events that re-examined >= 1 outstanding "
                 "slice. The short sequences are enumerated completely (exhaustive_part_cases, all distinct); the long "
